@@ -25,17 +25,17 @@ theorem rangeItems_get (a b : Int) (i : Nat) (h : a ≤ b) (hi : i < (b - a + 1)
   simp [rangeItems, this, hi]
 
 /-- arrays, typed slices and fixed arrays are visited element by element, in order -/
-theorem loopItems_slice (t : Ty) (xs : List GoVal) : loopItems (.slice t xs) = .ok xs := rfl
-theorem loopItems_array (t : Ty) (xs : List GoVal) : loopItems (.array t xs) = .ok xs := rfl
+theorem loopItems_slice (budget : Int) (t : Ty) (xs : List GoVal) : loopItems budget (.slice t xs) = .ok xs := rfl
+theorem loopItems_array (budget : Int) (t : Ty) (xs : List GoVal) : loopItems budget (.array t xs) = .ok xs := rfl
 /-- a map is visited as `[key, value]` pairs, one per entry, in the order of `values.SortedMapKeys`
     (`MapOrder.sortedEntries`: whatever the order of the entry list `kvs`; `Proofs/MapOrder.lean`
     proves that order independent of it). The only map without an answer has several keys that are
     neither booleans, numbers nor strings (`MapOrder.manyClass4`: ordered by `fmt.Sprint`). -/
-theorem loopItems_map (k v : Ty) (kvs : List (GoVal × GoVal)) (h : MapOrder.manyClass4 kvs = false) :
-    loopItems (.map k v kvs) = .ok ((MapOrder.sortedEntries kvs).map fun kv => mkPair kv.1 kv.2) := by
+theorem loopItems_map (budget : Int) (k v : Ty) (kvs : List (GoVal × GoVal)) (h : MapOrder.manyClass4 kvs = false) :
+    loopItems budget (.map k v kvs) = .ok ((MapOrder.sortedEntries kvs).map fun kv => mkPair kv.1 kv.2) := by
   simp [loopItems, MapOrder.sortedMapEntries, h]
-theorem loopItems_map_length (k v : Ty) (kvs : List (GoVal × GoVal)) (xs : List GoVal)
-    (h : loopItems (.map k v kvs) = .ok xs) : xs.length = kvs.length := by
+theorem loopItems_map_length (budget : Int) (k v : Ty) (kvs : List (GoVal × GoVal)) (xs : List GoVal)
+    (h : loopItems budget (.map k v kvs) = .ok xs) : xs.length = kvs.length := by
   simp only [loopItems] at h
   rcases MapOrder.sortedMapEntries_cases (ε := Cause) kvs with ⟨_, h1⟩ | ⟨_, w, h1⟩
   · rw [h1] at h
@@ -44,7 +44,7 @@ theorem loopItems_map_length (k v : Ty) (kvs : List (GoVal × GoVal)) (xs : List
     simp [MapOrder.sortedEntries_length]
   · rw [h1] at h; cases h
 /-- nil selects nothing -/
-theorem loopItems_nil : loopItems .nil = .ok [] := rfl
+theorem loopItems_nil (budget : Int) : loopItems budget .nil = .ok [] := rfl
 
 /-! ## reversed, offset, limit -/
 
@@ -253,7 +253,7 @@ theorem iterStart_other (var : Bytes) (s : RS) (x : GoVal) (i n : Nat) (cyc) (y 
 theorem loop_denotation (c : RCtx) (line : Nat) (tr : Bool) (var : Bytes) (e : Expr) (mods : LoopMods) (body : List Node)
     (clauses : List (List Node)) (s : RS) (v : GoVal) (items0 : List GoVal) (off lim : Option Int) (cols : Option Nat)
     (hcl : clauses.length ≤ 1)
-    (hv : evaluate c.P s.env e = .ok v) (hitems : loopItems v = .ok items0)
+    (hv : evaluate c.P s.env e = .ok v) (hitems : loopItems c.cfg.budget v = .ok items0)
     (hoff : intModifier c.P mods.offset ⟨line, true⟩ s = .ret (off, s))
     (hlim : intModifier c.P mods.limit ⟨line, true⟩ s = .ret (lim, s))
     (hcols : tablerowCols c.P tr mods.cols ⟨line, true⟩ s = .ret (cols, s)) :
@@ -297,7 +297,7 @@ theorem loop_denotation (c : RCtx) (line : Nat) (tr : Bool) (var : Bytes) (e : E
 theorem for_denotation (c : RCtx) (line : Nat) (var : Bytes) (e : Expr) (mods : LoopMods) (body : List Node)
     (clauses : List (List Node)) (s : RS) (v : GoVal) (items0 : List GoVal) (off lim : Option Int)
     (hcl : clauses.length ≤ 1)
-    (hv : evaluate c.P s.env e = .ok v) (hitems : loopItems v = .ok items0)
+    (hv : evaluate c.P s.env e = .ok v) (hitems : loopItems c.cfg.budget v = .ok items0)
     (hoff : intModifier c.P mods.offset ⟨line, true⟩ s = .ret (off, s))
     (hlim : intModifier c.P mods.limit ⟨line, true⟩ s = .ret (lim, s)) :
     (renderNode c (.loop line false var e mods body clauses) s).runPure =
@@ -328,7 +328,7 @@ theorem iterBody_for (body : M Status) (i n : Nat) (s : RS) :
 theorem tablerow_denotation (c : RCtx) (line : Nat) (var : Bytes) (e : Expr) (mods : LoopMods) (body : List Node)
     (clauses : List (List Node)) (s : RS) (v : GoVal) (items0 : List GoVal) (off lim : Option Int) (cols : Nat)
     (hcl : clauses.length ≤ 1)
-    (hv : evaluate c.P s.env e = .ok v) (hitems : loopItems v = .ok items0)
+    (hv : evaluate c.P s.env e = .ok v) (hitems : loopItems c.cfg.budget v = .ok items0)
     (hoff : intModifier c.P mods.offset ⟨line, true⟩ s = .ret (off, s))
     (hlim : intModifier c.P mods.limit ⟨line, true⟩ s = .ret (lim, s))
     (hcols : tablerowCols c.P true mods.cols ⟨line, true⟩ s = .ret (some cols, s)) :
